@@ -436,6 +436,82 @@ func r3pKeywords(c *Ctx) (kws []string, identLike []string, where string) {
 			return true
 		})
 	}
+	// the same table written as a map literal `map[string]<kind>{"fn": Fn, …}`; the identifier kind is then the kind
+	// constant assigned in the function that looks a spelling up in the map (the not-found branch)
+	if len(best) < 5 {
+		var tableObj types.Object
+		for _, f := range p.Syntax {
+			ast.Inspect(f, func(n ast.Node) bool {
+				lit, ok := n.(*ast.CompositeLit)
+				if !ok {
+					return true
+				}
+				mt, ok := types.Unalias(info.TypeOf(lit)).Underlying().(*types.Map)
+				if !ok || !r2pIsString(mt.Key()) {
+					return true
+				}
+				if _, named := types.Unalias(mt.Elem()).(*types.Named); !named {
+					return true
+				}
+				ks := map[string]*types.Const{}
+				for _, el := range lit.Elts {
+					kv, ok := el.(*ast.KeyValueExpr)
+					if !ok {
+						continue
+					}
+					tv := info.Types[kv.Key]
+					k := ConstOf(info, kv.Value)
+					if tv.Value != nil && tv.Value.Kind() == constant.String && k != nil {
+						ks[constant.StringVal(tv.Value)] = k
+					}
+				}
+				if len(ks) >= 5 && len(ks) > len(best) {
+					best, where = ks, "the table at "+c.Pos(lit.Pos())
+					tableObj = nil
+					// the variable the literal initialises
+					for _, f2 := range p.Syntax {
+						ast.Inspect(f2, func(n2 ast.Node) bool {
+							if vs, ok := n2.(*ast.ValueSpec); ok {
+								for i, v := range vs.Values {
+									if v == ast.Expr(lit) && i < len(vs.Names) {
+										tableObj = info.Defs[vs.Names[i]]
+									}
+								}
+							}
+							return true
+						})
+					}
+				}
+				return true
+			})
+		}
+		if tableObj != nil {
+			for _, fd := range AllFuncDecls(p) {
+				uses := false
+				ast.Inspect(fd.Body, func(n ast.Node) bool {
+					if ix, ok := n.(*ast.IndexExpr); ok {
+						if id, ok := ast.Unparen(ix.X).(*ast.Ident); ok && info.Uses[id] == tableObj {
+							uses = true
+						}
+					}
+					return true
+				})
+				if !uses {
+					continue
+				}
+				ast.Inspect(fd.Body, func(n ast.Node) bool {
+					if as, ok := n.(*ast.AssignStmt); ok && len(as.Rhs) == 1 && ident == nil {
+						if k := ConstOf(info, as.Rhs[0]); k != nil {
+							if _, named := types.Unalias(k.Type()).(*types.Named); named {
+								ident = k
+							}
+						}
+					}
+					return true
+				})
+			}
+		}
+	}
 	// kinds that occur in every accept set of the parser that contains the identifier kind
 	like := map[*types.Const]bool{}
 	if ident != nil && c.HasPkg("homescript/parser") {
